@@ -73,6 +73,14 @@ import Pog.Lemmas.AliasCover
 -/
 -- INDEX Pog.DcProps: rendered_defaults_last, render_order_defaults_last, render_order_is_identity, field_line_shape, generate_never_diverges, generate_value_error_iff, generate_default_factory_counterexample, generate_ok_partial, enum_default_member_counterexample, enum_default_expr_by_value, default_enum_expr, default_enum_str_expr, enum_default_member_exact, enum_default_member_partial, enum_default_member_in_enum_partial, enum_default_wrong_member_counterexample, int_enum_default_never_identifier
 /-
+  C01, the argument list of an endpoint method (Pog/Model/Loader.lean `mergeParams`; proved in Pog/Props/Loader.lean, claimed here):
+    parameters_no_duplicate_key            F4 repaired: a parameter declared at path level AND at operation level (same name, same `in`)
+                                           is ONE parsed parameter - no two parsed parameters share (name, in) when neither declared
+                                           list does, so the emitted `def` gets no duplicate argument from an override
+    parameters_override_former_witness     the former witness of F4
+-/
+-- INDEX Pog.LoaderProps: parameters_no_duplicate_key, parameters_override_former_witness
+/-
   C01, mocks/mock_client.py (Pog/Model/ClientGen.lean; claimed from Pog/Props/ClientGen.lean):
     mock_init_body_never_empty             the `__init__` body of MockAPIClient is never empty (F31 repaired: `pass` for a document without operations)
 -/
